@@ -4,6 +4,8 @@ import (
 	"bytes"
 	"encoding/json"
 	"fmt"
+	"github.com/dave/dst/decorator/resolver/goast"
+	"github.com/dave/dst/decorator/resolver/guess"
 	"go/ast"
 	"go/format"
 	"go/parser"
@@ -494,7 +496,77 @@ func c03Judge(src []byte) (sig, what string) {
 	if a, b := commaStream(want), commaStream(out.Bytes()); a != b {
 		return "commas-differ", "the output and gofmt(input) have commas at different places: " + diffAt([]byte(a), []byte(b))
 	}
+	// the same source decorated and printed with import management (qualified identifiers are collapsed into
+	// path-carrying identifiers and expanded again): behind the import declarations - which the import
+	// manager owns - the tokens, commas and comments are still those of gofmt(input)
+	if dupImport(src) {
+		return "", "" // one path imported twice: the import manager keeps one name per path (K4, under C08)
+	}
+	var mout bytes.Buffer
+	var merr error
+	refused := false
+	if msg := guard(func() {
+		f, e := decorator.NewDecoratorWithImports(token.NewFileSet(), "example.com/local", goast.New()).Parse(src)
+		if e != nil {
+			refused = true // a dot-import: the syntax-based resolver says so (C09)
+			return
+		}
+		merr = decorator.NewRestorerWithImports("example.com/local", guess.New()).Fprint(&mout, f)
+	}); msg != "" {
+		return "decorate-print-panic", "with import management: " + msg
+	}
+	if refused || merr != nil {
+		return "", "" // what the resolvers refuse or cannot name is C09's / C17's business
+	}
+	wa, ga := afterImports(want), afterImports(mout.Bytes())
+	if wa == nil || ga == nil {
+		return "output-does-not-parse", "with import management the output does not parse"
+	}
+	wt2, wc2, e1 := tokenStream(wa)
+	gt2, gc2, e2 := tokenStream(ga)
+	if e1 != nil || e2 != nil {
+		return "", ""
+	}
+	if ok, i := sameToks(wt2, gt2); !ok {
+		return "token-stream-differs", fmt.Sprintf("with import management, behind the imports, token %d differs: %s", i, diffAt(wa, ga))
+	}
+	if a, b := commaStream(wa), commaStream(ga); a != b {
+		return "commas-differ", "with import management the output and gofmt(input) have commas at different places: " + diffAt([]byte(a), []byte(b))
+	}
+	if orderKey(gc2) != orderKey(wc2) && orderKey(gc2) != orderKey(afterImportsComments(src)) && !bagEq(bag(gc2), bag(wc2)) {
+		return "comments-differ", "with import management the comments behind the imports differ: " + diffAt(wa, ga)
+	}
 	return "", ""
+}
+
+// afterImports returns the text behind the last import declaration (the whole text behind the package
+// clause when there is none); nil when the text does not parse.
+func afterImports(src []byte) []byte {
+	fset := token.NewFileSet()
+	af, err := parser.ParseFile(fset, "", src, parser.ParseComments)
+	if err != nil {
+		return nil
+	}
+	from := fset.Position(af.Name.End()).Offset
+	for _, d := range af.Decls {
+		if gd, ok := d.(*ast.GenDecl); ok && gd.Tok == token.IMPORT {
+			from = fset.Position(gd.End()).Offset
+		}
+	}
+	// a trailing comment on the line of the last import belongs to the import declaration
+	for from < len(src) && src[from] != '\n' {
+		from++
+	}
+	return append([]byte("package p\n"), src[from:]...)
+}
+
+func afterImportsComments(src []byte) []string {
+	a := afterImports(src)
+	if a == nil {
+		return nil
+	}
+	_, c, _ := tokenStream(a)
+	return c
 }
 
 // importPermutationOnly: both texts are equal once their import declarations are removed.
